@@ -34,6 +34,8 @@ import (
 type spliceState struct {
 	p     *product
 	names []string
+	ids   []int32
+	start byte
 }
 
 type spliceStats struct {
@@ -102,11 +104,13 @@ func (w *world) phaseD(r *ev.Run, start []byte, budget int, tag string, hist map
 			}
 			seenPrefix[pk] = true
 			cur, _ := w.initial(qnet.Val(w.deepStart[pi]))
-			names := []string{"start value " + string(w.deepStart[pi])}
+			var names []string
+			var ids []int32
 			bad := false
 			for _, b := range path[:idx+1] {
 				m, name := w.letterOf(b)
 				names = append(names, name)
+				ids = append(ids, w.pool.IDOf(m))
 				if w.step(cur, m) != "" {
 					bad = true // reported by phase C
 					break
@@ -118,7 +122,7 @@ func (w *world) phaseD(r *ev.Run, start []byte, budget int, tag string, hist map
 			k := w.key(cur)
 			if !seenState[k] {
 				seenState[k] = true
-				states = append(states, spliceState{cur, names})
+				states = append(states, spliceState{cur, names, ids, w.deepStart[pi]})
 			}
 		}
 		st.States += len(states)
@@ -134,6 +138,8 @@ func (w *world) phaseD(r *ev.Run, start []byte, budget int, tag string, hist map
 			d     *dnode
 			lost  bool
 			names []string
+			ids   []int32
+			start byte
 		}
 		mark := func(key [32]byte, d *dnode, lost bool) bool { // true = new
 			var mk [32 + 9]byte
@@ -164,7 +170,7 @@ func (w *world) phaseD(r *ev.Run, start []byte, budget int, tag string, hist map
 		for _, s := range states {
 			k := w.key(s.p)
 			if mark(k, root.n, false) {
-				frontier = append(frontier, item{s.p, k, root.n, false, append(append([]string{}, s.names...), "| continuation of another run:")})
+				frontier = append(frontier, item{s.p, k, root.n, false, append(append([]string{}, s.names...), "| continuation of another run:"), s.ids, s.start})
 			}
 		}
 		// histories without loss first, then the ones with a lost burst (deferred)
@@ -184,6 +190,7 @@ func (w *world) phaseD(r *ev.Run, start []byte, budget int, tag string, hist map
 							diff := w.step(p2, m)
 							k2 := w.key(p2)
 							n2 := append(append([]string{}, it.names...), name)
+							i2 := append(append([]int32{}, it.ids...), w.pool.IDOf(m))
 							mu.Lock()
 							st.Steps++
 							hist["splice step"]++
@@ -192,9 +199,9 @@ func (w *world) phaseD(r *ev.Run, start []byte, budget int, tag string, hist map
 								if it.lost {
 									what += " with a lost burst"
 								}
-								r.Violate("differs-from-spec: "+short(diff)+decidedTag(diff, it.p), diff+" after "+name+" ("+what+")", "c06", map[string]interface{}{"config": tag, "path": n2}, diff, "identical observable behaviour")
+								r.Violate("differs-from-spec: "+short(diff)+decidedTag(diff, it.p), diff+" after "+name+" ("+what+")", "c06", w.artefact(tag, it.start, n2, i2), diff, "identical observable behaviour")
 							} else if mark(k2, e.to, it.lost) {
-								next = append(next, item{p2, k2, e.to, it.lost, n2})
+								next = append(next, item{p2, k2, e.to, it.lost, n2, i2, it.start})
 							}
 							mu.Unlock()
 						}
@@ -204,7 +211,7 @@ func (w *world) phaseD(r *ev.Run, start []byte, budget int, tag string, hist map
 							mu.Lock()
 							for _, t := range it.d.lossTargets(kind) {
 								if mark(it.key, t, true) {
-									deferred = append(deferred, item{it.p, it.key, t, true, append(append([]string{}, it.names...), "(burst lost)")})
+									deferred = append(deferred, item{it.p, it.key, t, true, append(append([]string{}, it.names...), "(burst lost)"), it.ids, it.start})
 								}
 							}
 							mu.Unlock()
